@@ -30,7 +30,7 @@ struct Machine {
 }
 
 impl Machine {
-    fn new(m128: bool, embedded: bool, files: &[Vec<u8>; 3]) -> Self {
+    fn new(m128: bool, embedded: bool, files: &[Vec<u8>; 3], chunk: usize) -> Self {
         let mut cfg = EmuCfg::new(m128);
         cfg.default_rom = embedded;
         let mut emu = cfg.build();
@@ -47,7 +47,8 @@ impl Machine {
             if m128 {
                 pages.push_back(r[1].clone());
             }
-            emu.load_rom(VRomSet { pages }).expect("rom load");
+            // the host's ROM assets deliver a page in one piece or in several (a file read in blocks)
+            emu.load_rom(VRomSet { pages, chunk }).expect("rom load");
             if m128 {
                 r
             } else {
@@ -139,7 +140,7 @@ pub fn run(args: &Args) {
     for h in 0..histories {
         let m128 = h % 4 != 3;
         let embedded = h % 2 == 1;
-        let mut m = Machine::new(m128, embedded, &files);
+        let mut m = Machine::new(m128, embedded, &files, *r.pick(&[0usize, 0, 4096, 1000, 16383, 1]));
         out.ev(json!({"ev":"reset","m": if m128 {128} else {48}, "embedded": embedded}));
         // paging-heavy and memory-heavy histories alternate; lock bit is rare in some of them
         let lock_rare = h % 3 != 0;
@@ -225,7 +226,7 @@ pub fn run(args: &Args) {
             };
             for v1 in 0..256u16 {
                 for &v2 in seconds.iter() {
-                    let mut m = Machine::new(true, embedded, &files);
+                    let mut m = Machine::new(true, embedded, &files, 0);
                     out.ev(json!({"ev":"reset","m":128,"embedded":embedded}));
                     // markers: page bank b at 0xC000 and write b+0x40 at 0xC100
                     for b in 0..8u8 {
